@@ -103,3 +103,29 @@ Theorem C16_unquoted_arguments_are_known : forall a, In a GenFormats.format_args
   exists c, In (a, c) FormatArgs.allowed.
 Proof. exact FormatArgs.format_args_known. Qed.
 Print Assumptions C16_unquoted_arguments_are_known.
+
+(* the text of a library's error (cron parser, YAML decoder, OS) goes into a message through
+   oneLine (error.go; model Out/OneLine.v over code points, tied to the function by the
+   cases_oneline stream): nothing a consumer reads as the end of a line is left - LF, CR, NEL,
+   LS, PS - a text without them is unchanged, and everything else is kept in order *)
+From AL Require Out.OneLine.
+Theorem C16_library_text_has_no_line_break : forall s,
+  forallb (fun c => negb (OneLine.is_break c)) (OneLine.one_line s) = true.
+Proof. exact OneLine.one_line_no_break. Qed.
+Print Assumptions C16_library_text_has_no_line_break.
+
+Theorem C16_library_text_unchanged_without_breaks : forall s,
+  forallb (fun c => negb (OneLine.is_break c)) s = true -> OneLine.one_line s = s.
+Proof. exact OneLine.one_line_id. Qed.
+Print Assumptions C16_library_text_unchanged_without_breaks.
+
+Theorem C16_library_text_kept : forall s,
+  filter (fun c => negb (N.eqb c OneLine.SP)) (OneLine.one_line s)
+  = filter (fun c => negb (OneLine.is_break c) && negb (N.eqb c OneLine.SP)) s.
+Proof. exact OneLine.one_line_keeps_text. Qed.
+Print Assumptions C16_library_text_kept.
+
+(* before 040a767 only LF was replaced: `cron: "@x\ry"` put a CR into the message *)
+Theorem C16_library_text_old_refuted : exists s, existsb OneLine.is_break (OneLine.one_line_old s) = true.
+Proof. exact OneLine.one_line_old_refuted. Qed.
+Print Assumptions C16_library_text_old_refuted.
